@@ -510,7 +510,7 @@ func membSuites(tier string) []*Suite {
 func init() {
 	register(&Check{
 		ID: "C03", Level: "model_checking",
-		Rule:        "explicit-state search over membership operation sequences (reserve fixed/random seat incl. re-buy, join, leave with every listed subset incl. unknown / mixed / repeated ids, batch update with seat-taken, duplicate id, too many joins, unknown leaver, fixed+random mixes; every random seat draw) on the real table engine from four base states (fresh CT table, MTT table created with players, table created on a break, standby after one hand): each state is reached by replaying its shortest path on a fresh engine, one more operation is applied and judged by the bookkeeping invariant, error => nothing changed, and a free seat is obtainable; states are merged on (status, seat map, players, seat manager); plus schedule exploration of a PlayerJoin racing the opening of a hand and of a re-buy / add-on / arrival / departure of a bystander racing the settlement of a hand (invariant at every quiescent point afterwards)",
+		Rule:        "explicit-state search over membership operation sequences (reserve fixed/random seat incl. re-buy, join, leave with every listed subset incl. unknown / mixed / repeated ids, batch update with seat-taken, duplicate id, too many joins, unknown leaver, fixed+random mixes; every random seat draw) on the real table engine from four base states (fresh CT table, MTT table created with players, table created on a break, standby after one hand): each state is reached by replaying its shortest path on a fresh engine, one more operation is applied and judged by the bookkeeping invariant, error => nothing changed, and a free seat is obtainable; states are merged on (status, seat map, players, seat manager); plus schedule exploration of one membership call (PlayerJoin, reserve fixed / random seat, leave, batch update) racing the opening of a hand (invariant; a call that returned nil has taken effect, one that failed has not) and of a re-buy / add-on / arrival / departure of a bystander racing the settlement of a hand (invariant at every quiescent point afterwards)",
 		Assumptions: []string{"id pool of 3-5 players plus an unknown id; 2-4 seats to the reported depth, 9-10 seats to a smaller depth", "random seats: the first two shuffle positions are enumerated (the operations draw at most two... five seats)"},
 		Suites:      membSuites,
 	})
